@@ -257,6 +257,42 @@ def observe(m, o):
             except BaseException as e:  # noqa
                 outs.append({"error": repr(e)[:200]})
         return {"history": outs}
+    if k == "traced_run":
+        # property C19: with SUMMER2_VERIF_TAINT=1 the jax stand-in treats jit arguments, loop carries and cond / switch
+        # operands as tracers; without it this is an ordinary run and serves as the reference
+        import jax
+        out = {}
+        psets = [params({"params": ps}) for ps in o["param_sets"]]
+        for solver in o["solvers"]:
+            rec = {}
+            try:
+                runner = m.get_runner(psets[0], solver=solver, jit=True, **({"dyn_params": o["dyn"]} if o.get("dyn") is not None else {}))
+                runs = []
+                for ps in psets:
+                    res = runner._run_func(parameters=ps if o.get("dyn") is None else {k2: v for k2, v in ps.items() if k2 in o["dyn"]})
+                    runs.append({"outputs": [vec(row) for row in np.asarray(res["outputs"])],
+                                 "derived": {k2: vec(np.asarray(v)) for k2, v in res["derived_outputs"].items()}})
+                rec["runs"] = runs
+                one = jax.jit(runner.impl_dict["one_step"])
+                r1 = one(psets[0], num(o["t"]), np.array([num(v) for v in o["x"]]))
+                rec["one_step"] = {"flow_rates": vec(np.asarray(r1.flow_rates)), "comp_rates": vec(np.asarray(r1.comp_rates))}
+            except (KeyboardInterrupt, SystemExit):
+                raise
+            except BaseException as e:  # noqa
+                import traceback
+                root = e
+                while not isinstance(root, getattr(jax, "ConcretizationError", ())) and (getattr(root, "cause", None) or root.__cause__ or root.__context__):
+                    nxt = getattr(root, "cause", None) or root.__cause__ or root.__context__
+                    if not isinstance(nxt, BaseException):
+                        break
+                    root = nxt
+                frames = [f for f in traceback.extract_tb(root.__traceback__) if "/jaxshim/" not in f.filename and "impl.py" not in f.filename]
+                rec["error"] = {"concretization": isinstance(root, getattr(jax, "ConcretizationError", ())),
+                                "type": type(root).__name__, "message": str(root)[:300],
+                                "where": ["%s:%d %s" % (f.filename.split("site-packages/")[-1].replace("/repo/", ""), f.lineno, (f.line or "")[:100])
+                                          for f in frames[-3:]]}
+            out[solver] = rec
+        return {"traced": out}
     if k == "qcomps":
         q = dict(o.get("filt") or {})
         if o.get("name"):
